@@ -257,7 +257,7 @@ def gen_case(rng, quick=True):
         if rng.random() < 0.2:
             es.insert(rng.randint(0, len(es)), ["peek"])
     extra = {"peek": rng.choice([None, None, None, 0, 1, 2, 3, 4]), "prep_calls": rng.choice([0, 0, 0, 1, 2]),
-             "callform": rng.randrange(12), "twin": rng.random() < 0.3,
+             "callform": rng.randrange(60), "twin": rng.random() < 0.3,
              "idtype": rng.choice(["int64", "int64", "int32", "uint8", "pyint"]), "cfgrepr": rng.randrange(3),
              "dimrepr": rng.random() < 0.3}
     case = {**extra, "edits": edits, "kind": kind, "verts": verts, "vints": vints, "edges": edges, "faces": faces, "cells": cells,
